@@ -115,7 +115,8 @@ creadMM(FILE *fp, int *m, int *n, int_t *nonz,
    }
 
     if(expand)
-      new_nonz = 2 * *nonz - *n;
+      new_nonz = 2 * *nonz; /* upper bound: the file need not store every
+                               diagonal entry, so 2*nonz - n can be too small */
     else
       new_nonz = *nonz;
 
